@@ -175,7 +175,14 @@ class Gen:
         is_async = bool(is_async and kind in ASYNC_OK)
         recv = RECEIVER[kind]
         sig = gen_sig(rng, kind)
+        if kind == "method" and rng.random() < 0.06:
+            # the idiom of Counter.update / Template.substitute: def f(self, x, /, **kw)
+            sig = {"posonly": [{"name": "x", "default": None}], "poskw": [], "varpos": None, "kwonly": [], "varkw": "kw"}
         args, kwargs = gen_call(rng, sig)
+        if kind == "method" and sig["posonly"] and sig["varkw"] and rng.random() < 0.6:
+            # def f(self, x, /, ..., **kw) called with a keyword that happens to be named `self` (it lands in **kw):
+            # the instance is the receiver
+            kwargs["self"] = ["o", 40]
         if kind in ("prop_get", "prop_del"):
             args, kwargs = [], {}
         if kind == "prop_set":
